@@ -31,7 +31,9 @@ RULE = ("ALL command sequences up to a length bound over {assert fresh|repeated,
         "pop 0|1|2, reset-assertions, check-sat, maximize} (scripts; legal ones and those whose LAST command is an "
         "illegal pop) and {add_assertion, push 0|1|2, pop 0|1|2, reset_assertions, solve, is_sat, is_valid, is_unsat, "
         "solve([f]), read assertions, is_sat / is_valid / solve whose native check raises unknown, is_sat whose add_assertion "
-        "raises} (solvers), plus seeded random sequences of length 8-60 with all four objective "
+        "raises} (solvers), all interleavings of two live solver instances up to length 4 (thorough 5) over {add, push 1, pop 1, "
+        "is_sat, read, exit}, soft clauses drawn from two clauses only so that the same clause recurs under the same id, the "
+        "other id and after a pop, plus seeded random sequences of length 8-60 with all four objective "
         "kinds, :signed, weights, three soft ids.  Non-trivial = a pop/reset actually removed an item, a soft id was "
         "reused, or (solvers) a one-shot query was followed by another call.")
 ASSUMPTIONS = [
@@ -343,10 +345,85 @@ class PySide(object):
         nat = "|".join(ids(lv) for lv in reversed(s.nat))
         if tracking:
             tr = ids([self.fid[x] for x in s._assertion_stack])
-            pts = ids(list(reversed(s._backtrack_points)))
+            bp = s._backtrack_points
+            # never print an unbounded list (state leaking between instances would make it grow for ever)
+            pts = ids(list(reversed(bp[-24:]))) + ("..(%d)" % len(bp) if len(bp) > 24 else "")
         else:
             tr = pts = "-"
         return "%s/%s/%s/%d/%s" % (nat, tr, pts, 1 if s.pending_pop else 0, ids(s.log[-1]) if s.log else "-")
+
+    def final_observation(self, solver, tracking):
+        """the property is about what is observed next: read the list / solve once more"""
+        final = {}
+        try:
+            if tracking:
+                final["read"] = [self.fid[x] for x in solver.assertions]
+            solver.solve()
+            final["check"] = list(solver.log[-1])
+        except Exception as e:
+            final["exc"] = type(e).__name__
+        return final
+
+    def apply_op(self, s, t):
+        """One API call on toy solver `s`.  Returns (raised, read value or None); harness-visible errors propagate."""
+        form = self.form
+        raised, val = False, None
+        k = t[0]
+        if k == "a":
+            s.add_assertion(form[int(t[1:])])
+        elif k == "u":
+            s.push(int(t[1:]))
+        elif k == "p":
+            s.pop(int(t[1:]))
+        elif k == "r":
+            s.reset_assertions()
+        elif k == "s":
+            s.solve()
+        elif k == "g":
+            val = [self.fid[x] for x in s.assertions]
+        elif k == "e":
+            s.exit()
+        elif k in "qxy":
+            f = form[int(t[2:])]
+            q = t[1]
+            # x: the native check of this call raises "unknown"; y: asserting its formula raises
+            s.fail_solve, s.fail_add = (k == "x"), (k == "y")
+            try:
+                if q == "s":
+                    s.is_sat(f)
+                elif q == "v":
+                    s.is_valid(f)
+                elif q == "u":
+                    s.is_unsat(f)
+                else:
+                    s.solve([f])
+            except self.expected_exc:
+                if k == "q":
+                    raise
+                raised = True
+            finally:
+                s.fail_solve = s.fail_add = False
+        elif k == "S":
+            s.fail_solve = True
+            try:
+                s.solve()
+            except self.expected_exc:
+                raised = True
+            finally:
+                s.fail_solve = False
+        else:
+            raise ValueError(t)
+        return raised, val
+
+    @staticmethod
+    def error_outcome(e):
+        if isinstance(e, NativeError):
+            return "err native-error"
+        if isinstance(e, IndexError):
+            return "err index-error"
+        if isinstance(e, NotImplementedError):
+            return "err not-implemented"
+        return "err " + type(e).__name__      # anything else is an outcome of its own (never swallowed)
 
     def track(self, cfg, toks):
         """Run the ops on a fresh toy solver.  Returns (list of per-step snapshots / final 'err …',
@@ -354,71 +431,116 @@ class PySide(object):
         tracking = cfg[6] == "1"
         s = self.solver_class(cfg)(self.env)
         out, reads = [], []
-        form = self.form
         for i, t in enumerate(toks):
-            raised = False
             try:
-                k = t[0]
-                if k == "a":
-                    s.add_assertion(form[int(t[1:])])
-                elif k == "u":
-                    s.push(int(t[1:]))
-                elif k == "p":
-                    s.pop(int(t[1:]))
-                elif k == "r":
-                    s.reset_assertions()
-                elif k == "s":
-                    s.solve()
-                elif k == "g":
-                    reads.append((i, [self.fid[x] for x in s.assertions]))
-                elif k in "qxy":
-                    f = form[int(t[2:])]
-                    q = t[1]
-                    # x: the native check of this call raises "unknown"; y: asserting its formula raises
-                    s.fail_solve, s.fail_add = (k == "x"), (k == "y")
-                    try:
-                        if q == "s":
-                            s.is_sat(f)
-                        elif q == "v":
-                            s.is_valid(f)
-                        elif q == "u":
-                            s.is_unsat(f)
-                        else:
-                            s.solve([f])
-                    except self.expected_exc:
-                        if k == "q":
-                            raise
-                        raised = True
-                    finally:
-                        s.fail_solve = s.fail_add = False
-                elif k == "S":
-                    s.fail_solve = True
-                    try:
-                        s.solve()
-                    except self.expected_exc:
-                        raised = True
-                    finally:
-                        s.fail_solve = False
-                else:
-                    raise ValueError(t)
-            except NativeError:
-                out.append("err native-error")
+                raised, val = self.apply_op(s, t)
+            except Exception as e:
+                out.append(self.error_outcome(e))
                 break
-            except IndexError:
-                out.append("err index-error")
-                break
-            except NotImplementedError:
-                out.append("err not-implemented")
-                break
-            except Exception as e:              # anything else is an outcome of its own (never swallowed)
-                out.append("err " + type(e).__name__)
-                break
+            if val is not None:
+                reads.append((i, val))
             out.append(self.snapshot(s, tracking) + ("!" if raised else ""))
         return out, reads, s
+
+    def duo(self, cfgs, steps):
+        """Two solver instances alive at the same time, used in the interleaving `steps` = [(inst, token)…].
+        Returns per instance (out, reads, solver, exited) like `track`, and `cross`: the first step at which the
+        raw state of the instance that was NOT called changed."""
+        solvers = [self.solver_class(c)(self.env) for c in cfgs]
+        tr = [c[6] == "1" for c in cfgs]
+        outs, reads, exited = ([], []), ([], []), [False, False]
+        last = [self.snapshot(solvers[k], tr[k]) for k in (0, 1)]
+        fresh = list(last)
+        cross = None
+        dead = [False, False]
+        for gi, (k, t) in enumerate(steps):
+            if dead[k]:
+                continue
+            try:
+                raised, val = self.apply_op(solvers[k], t)
+            except Exception as e:
+                outs[k].append(self.error_outcome(e))
+                dead[k] = True
+                continue
+            if t == "e":
+                exited[k] = True
+                dead[k] = True
+                continue
+            if val is not None:
+                reads[k].append((len(outs[k]), val))
+            snap = self.snapshot(solvers[k], tr[k])
+            outs[k].append(snap + ("!" if raised else ""))
+            last[k] = snap
+            o = 1 - k
+            if cross is None and not exited[o] and self.snapshot(solvers[o], tr[o]) != last[o]:
+                cross = (gi, "AB"[o], last[o], self.snapshot(solvers[o], tr[o]))
+        return outs, reads, solvers, exited, cross, fresh
 
 
 class NativeError(Exception):
     pass
+
+
+class CaseTimeout(BaseException):
+    """raised by the SIGALRM watchdog: one case ran longer than CASE_DEADLINE_S"""
+
+
+CASE_DEADLINE_S = 5.0        # a single history never needs more than milliseconds
+BUNDLE_BUDGET_S = 110.0      # set by run() from the tier's budget before the workers are forked
+
+
+def _on_alarm(signum, frame):
+    raise CaseTimeout()
+
+
+def watchdog_install():
+    import signal
+    import threading
+    if threading.current_thread() is threading.main_thread():
+        signal.signal(signal.SIGALRM, _on_alarm)
+        return True
+    return False
+
+
+class deadline(object):
+    """`with deadline():` -- the body is interrupted by CaseTimeout after CASE_DEADLINE_S seconds."""
+    armed = False
+
+    def __enter__(self):
+        import signal
+        if deadline.armed:
+            signal.setitimer(signal.ITIMER_REAL, CASE_DEADLINE_S)
+
+    def __exit__(self, *a):
+        import signal
+        if deadline.armed:
+            signal.setitimer(signal.ITIMER_REAL, 0)
+        return False
+
+
+class OutOfTime(Exception):
+    pass
+
+
+class TooManyHangs(Exception):
+    """several cases of this bundle hit the per-case deadline: stop generating, report what was found"""
+
+
+_HANGS = [0]
+
+
+def note_hang():
+    _HANGS[0] += 1
+    if _BUNDLE_T0[0] is not None and _HANGS[0] >= 4:
+        raise TooManyHangs()
+
+
+_BUNDLE_T0 = [None]         # set by work(); None (replay, shrinking: bounded by construction) = no bundle budget
+
+
+def check_bundle_time():
+    if _BUNDLE_T0[0] is not None and time.time() - _BUNDLE_T0[0] > BUNDLE_BUDGET_S:
+        raise OutOfTime()
 
 
 _PY = None
@@ -449,10 +571,12 @@ def instantiate(sym, pos):
         return "a%d" % (2 * (pos + 1))
     if sym == "B":
         return "a0"
+    # soft clauses: only two distinct clauses (by parity of the position) so that the SAME clause comes back under
+    # the same id, under the other id, and after a pop; the weight (= position + 1) tells the entries apart
     if sym == "S0":
-        return "s0.%d.%d" % (2 * (pos + 1), 1 + pos % 2)
+        return "s0.%d.%d" % (2 * (1 + pos % 2), pos + 1)
     if sym == "S1":
-        return "s1.%d.%d" % (2 * (pos + 1), 1)
+        return "s1.%d.%d" % (2 * (1 + pos % 2), pos + 1)
     if sym == "O":
         return "o%d" % (8 * pos)
     if sym in ("QS", "QV", "QU", "QA"):
@@ -514,7 +638,10 @@ def random_script(rng, n, illegal_end):
         if r < 0.25:
             toks.append("a%d" % rng.choice([0, 2 * (1 + i % 70), 2 * rng.randrange(70) + rng.randrange(2)]))
         elif r < 0.42:
-            toks.append("s%d.%d.%d" % (rng.randrange(3), 2 * (1 + i % 70), rng.choice([1, 1, 2, 3, 7])))
+            # half of the soft clauses come from a pool of three clauses: repeated clauses under one id, under
+            # several ids, before and after pops
+            f = rng.choice([2, 4, 6]) if rng.random() < 0.5 else 2 * (1 + i % 70)
+            toks.append("s%d.%d.%d" % (rng.randrange(3), f, rng.choice([1, 1, 2, 3, 7])))
         elif r < 0.52:
             toks.append("o%d" % (8 * (i % 70) + rng.randrange(8)))
         elif r < 0.68:
@@ -634,7 +761,7 @@ class Batch(object):
         model = None
         if use_lean and self.lines:
             try:
-                model = lean_run(self.lines)
+                model = lean_run(self.lines, timeout=max(60, BUNDLE_BUDGET_S * 2))
             except (common.LeanError, subprocess.TimeoutExpired) as e:
                 self.res.l.append(("driver C16 does not run", str(e)))
         for (start, n, cb) in self.pending:
@@ -649,10 +776,24 @@ def check_scripts(cases, res, use_lean=True, batch=None):
         batch = Batch(res)
     P = py()
     lines, impl = [], []
-    for toks, legal in cases:
+    for n, (toks, legal) in enumerate(cases):
         body = " ".join(toks)
-        a1 = P.last_formula(toks)
-        a2 = P.strict_formula(toks)
+        if n % 512 == 0:
+            check_bundle_time()
+        try:
+            with deadline():
+                a1 = P.last_formula(toks)
+                a2 = P.strict_formula(toks)
+        except CaseTimeout:
+            a1 = a2 = "err hang"
+            impl.append((a1, a2))
+            lines.extend([("script " + body).rstrip(), ("strict " + body).rstrip(), ("spec " + body).rstrip()])
+            try:
+                note_hang()
+            except TooManyHangs:
+                batch.add(lines, lambda model, c=cases[:len(impl)], i=impl: _compare_scripts(c, i, model, res))
+                raise
+            continue
         impl.append((a1, a2))
         lines.append(("script " + body).rstrip())
         lines.append(("strict " + body).rstrip())
@@ -734,105 +875,245 @@ def check_tracks(cfg, who, cases, res, search, use_lean=True, batch=None):
     P = py()
     tracking = cfg[6] == "1"
     lines, impl = [], []
-    for toks, legal in cases:
-        out, reads, solver = P.track(cfg, toks)
-        final = None
-        if search and legal and not (out and out[-1].startswith("err")):
-            # the property is about what is observed next: read the list / solve once more
-            final = {}
-            try:
-                if tracking:
-                    final["read"] = [P.fid[x] for x in solver.assertions]
-                solver.solve()
-                final["check"] = list(solver.log[-1])
-            except Exception as e:
-                final["exc"] = type(e).__name__
+    for n, (toks, legal) in enumerate(cases):
+        if n % 512 == 0:
+            check_bundle_time()
+        try:
+            with deadline():
+                out, reads, solver = P.track(cfg, toks)
+                final = None
+                if search and legal and not (out and out[-1].startswith("err")):
+                    final = P.final_observation(solver, tracking)
+        except CaseTimeout:
+            out, reads, final = ["err hang"], [], None
+            hung = True
+        else:
+            hung = False
         impl.append((out, reads, final))
         lines.append(("track %s %s" % (cfg, " ".join(toks))).rstrip())
         lines.append(("specops " + " ".join(toks)).rstrip())
+        if hung:
+            try:
+                note_hang()
+            except TooManyHangs:
+                batch.add(lines, lambda model, c=cases[:len(impl)]: _compare_tracks(cfg, who, c, impl, model, res, search))
+                raise
     batch.add(lines, lambda model: _compare_tracks(cfg, who, cases, impl, model, res, search))
     if own:
         batch.flush(use_lean)
 
 
 def _compare_tracks(cfg, who, cases, impl, model, res, search):
-    P = py()
-    tracking = cfg[6] == "1"
     for n, (toks, legal) in enumerate(cases):
         out, reads, final = impl[n]
-        body = " ".join(toks)
-        res.cases += 1
-        res.steps += len(toks)
-        # spec
-        o = Oracle()
-        lives = []
-        oneshot_followed = False
-        for i, t in enumerate(toks):
-            tt = t if t[0] in "aupr" else "c"
-            if not o.legal(tt):
-                lives.append("illegal")
-                break
-            o.step(tt)
-            lives.append(ids(o.live()))
-            if is_oneshot(t) and i + 1 < len(toks):
-                oneshot_followed = True
-        res.states.add(repr(o.levels))
-        if legal and (o.removed or oneshot_followed):
-            res.nontrivial.append(digest("track %s %s" % (cfg, body)))
-        res.count("track_%s_%s" % (who, "legal" if legal else "illegal_last"))
-        if len(res.samples) < 4 and legal and o.removed and oneshot_followed and o.live() and len(toks) > 3:
-            res.samples.append({"kind": "track", "placement": cfg, "ops": body, "states": ";".join(out), "spec_live": ";".join(lives)})
-        if model is not None:
-            m, sp = model[2 * n], model[2 * n + 1]
-            if sp != ";".join(lives):
-                res.l.append(("python oracle and Lean Spec disagree", "%s: %s vs %s" % (body, ";".join(lives), sp)))
-            if m != ";".join(out):
-                res.k.append(("solver bookkeeping (placement %s): model %s, implementation %s" % (cfg, m, ";".join(out)),
-                              {"kind": "track", "cfg": cfg, "ops": body, "model": m, "implementation": ";".join(out)}))
-        if not (search and legal):
-            continue
-        # S: the implementation's own observations against the oracle
-        bad = None
-        if out and out[-1].startswith("err"):
-            i = len(out) - 1
-            bad = (i, "raises %s on a legal sequence" % out[-1][4:])
-        if bad is None:
-            for (i, val) in reads:
-                if ids(val) != lives[i]:
-                    bad = (i, "assertions = [%s], live = [%s]" % (ids(val), lives[i]))
-                    break
-        if bad is None:
-            # native checks: parse the last-check field of each snapshot where the op ran a check
-            for i, t in enumerate(toks):
-                if t[0] in "xyS" and not out[i].endswith("!") and not (t[0] == "y" and (t[1] == "a" or cfg[8] == "0")):
-                    bad = (i, "the exception of the native call did not reach the caller")
-                    break
-                if t[0] in "sSqx" or (t[0] == "y" and (t[1] == "a" or cfg[8] == "0")):
-                    seen = out[i].rstrip("!").rsplit("/", 1)[1]
-                    exp_l = [int(x) for x in lives[i].split(",")] if lives[i] != "-" else []
-                    if t[0] in "qxy":
-                        f = int(t[2:])
-                        exp_l = exp_l + [f + 1 if t[1] == "v" else f]
-                    if seen != ids(exp_l):
-                        bad = (i, "the check ran on [%s], expected [%s]" % (seen, ids(exp_l)))
-                        break
-        if bad is None and final is not None:
-            i = len(toks)
-            if "exc" in final:
-                bad = (i - 1, "a following read/solve raises %s" % final["exc"])
-            elif "read" in final and ids(final["read"]) != (lives[-1] if lives else "-"):
-                bad = (i - 1, "afterwards assertions = [%s], live = [%s]" % (ids(final["read"]), lives[-1] if lives else "-"))
-            elif ids(final.get("check", [])) != (lives[-1] if lives else "-"):
-                bad = (i - 1, "a following solve() runs on [%s], live = [%s]" % (ids(final.get("check", [])), lives[-1] if lives else "-"))
-        if bad is not None:
-            i, msg = bad
-            prev = next((op_kind(t) for t in reversed(toks[:i + 1]) if is_oneshot(t)), "none")
-            res.s.append(({"oracle": "assert-stack", "part": "solver", "placement": cfg, "call": op_kind(toks[i]) if i < len(toks) else "end",
-                           "pending_from": prev},
-                          "%s (placement of %s): step %d `%s`: %s" % ("solver", who, i, toks[i] if i < len(toks) else "end", msg),
-                          {"kind": "track", "cfg": cfg, "who": who, "ops": body, "implementation": ";".join(out),
-                           "spec_live": ";".join(lives), "step": i}))
+        m, sp = (model[2 * n], model[2 * n + 1]) if model is not None else (None, None)
+        _judge_track(cfg, who, toks, legal, out, reads, final, m, sp, res, search)
 
+
+def _judge_track(cfg, who, toks, legal, out, reads, final, m, sp, res, search, extra=None, label=""):
+    """One history of one solver instance: K against the model's line `m`, S against the oracle."""
+    body = " ".join(toks)
+    res.cases += 1
+    res.steps += len(toks)
+    # spec
+    o = Oracle()
+    lives = []
+    oneshot_followed = False
+    for i, t in enumerate(toks):
+        tt = t if t[0] in "aupr" else "c"
+        if not o.legal(tt):
+            lives.append("illegal")
+            break
+        o.step(tt)
+        lives.append(ids(o.live()))
+        if is_oneshot(t) and i + 1 < len(toks):
+            oneshot_followed = True
+    res.states.add(repr(o.levels))
+    if legal and (o.removed or oneshot_followed):
+        res.nontrivial.append(digest("track %s %s" % (cfg, body)))
+    res.count("track_%s_%s" % (who, "legal" if legal else "illegal_last"))
+    if len(res.samples) < 4 and legal and o.removed and oneshot_followed and o.live() and len(toks) > 3:
+        res.samples.append({"kind": "track", "placement": cfg, "ops": body, "states": ";".join(out), "spec_live": ";".join(lives)})
+    if m is not None:
+        if sp != ";".join(lives):
+            res.l.append(("python oracle and Lean Spec disagree", "%s: %s vs %s" % (body, ";".join(lives), sp)))
+        if m != ";".join(out):
+            res.k.append(("solver bookkeeping (placement %s%s): model %s, implementation %s" % (cfg, label, m, ";".join(out)),
+                          dict({"kind": "track", "cfg": cfg, "ops": body, "model": m, "implementation": ";".join(out)},
+                               **(extra or {}))))
+    if not (search and legal):
+        return
+    # S: the implementation's own observations against the oracle
+    bad = None
+    if out and out[-1].startswith("err"):
+        i = len(out) - 1
+        bad = (i, "raises %s on a legal sequence" % out[-1][4:])
+    if bad is None:
+        for (i, val) in reads:
+            if ids(val) != lives[i]:
+                bad = (i, "assertions = [%s], live = [%s]" % (ids(val), lives[i]))
+                break
+    if bad is None:
+        # native checks: parse the last-check field of each snapshot where the op ran a check
+        for i, t in enumerate(toks):
+            if t[0] in "xyS" and not out[i].endswith("!") and not (t[0] == "y" and (t[1] == "a" or cfg[8] == "0")):
+                bad = (i, "the exception of the native call did not reach the caller")
+                break
+            if t[0] in "sSqx" or (t[0] == "y" and (t[1] == "a" or cfg[8] == "0")):
+                seen = out[i].rstrip("!").rsplit("/", 1)[1]
+                exp_l = [int(x) for x in lives[i].split(",")] if lives[i] != "-" else []
+                if t[0] in "qxy":
+                    f = int(t[2:])
+                    exp_l = exp_l + [f + 1 if t[1] == "v" else f]
+                if seen != ids(exp_l):
+                    bad = (i, "the check ran on [%s], expected [%s]" % (seen, ids(exp_l)))
+                    break
+    if bad is None and final is not None:
+        i = len(toks)
+        if "exc" in final:
+            bad = (i - 1, "a following read/solve raises %s" % final["exc"])
+        elif "read" in final and ids(final["read"]) != (lives[-1] if lives else "-"):
+            bad = (i - 1, "afterwards assertions = [%s], live = [%s]" % (ids(final["read"]), lives[-1] if lives else "-"))
+        elif ids(final.get("check", [])) != (lives[-1] if lives else "-"):
+            bad = (i - 1, "a following solve() runs on [%s], live = [%s]" % (ids(final.get("check", [])), lives[-1] if lives else "-"))
+    if bad is not None:
+        i, msg = bad
+        prev = next((op_kind(t) for t in reversed(toks[:i + 1]) if is_oneshot(t)), "none")
+        sig = {"oracle": "assert-stack", "part": "solver", "placement": cfg,
+               "call": op_kind(toks[i]) if i < len(toks) else "end", "pending_from": prev}
+        if extra:
+            sig["shape"] = "two-instances"
+        res.s.append((sig,
+                      "%s (placement of %s%s): step %d `%s`: %s" % ("solver", who, label, i, toks[i] if i < len(toks) else "end", msg),
+                      dict({"kind": "track", "cfg": cfg, "who": who, "ops": body, "implementation": ";".join(out),
+                            "spec_live": ";".join(lives), "step": i}, **(extra or {}))))
+
+
+
+
+DUO_OPS = ["A", "u1", "p1", "QS", "g", "e"]
+
+
+def enum_duos(depth, tracking):
+    """All interleavings of length `depth` of two instances over DUO_OPS (first call on instance A; every
+    instance's own history legal; nothing after `exit`)."""
+    ops = [o for o in DUO_OPS if o != "g" or tracking]
+
+    def rec(steps, lev, gone):
+        if len(steps) == depth:
+            yield list(steps)
+            return
+        for k in ((0,) if not steps else (0, 1)):
+            if gone[k]:
+                continue
+            for sym in ops:
+                t = instantiate(sym, len(steps))
+                if t[0] == "p" and int(t[1:]) >= lev[k]:
+                    continue
+                lev2, gone2 = list(lev), list(gone)
+                if t[0] == "u":
+                    lev2[k] += int(t[1:])
+                elif t[0] == "p":
+                    lev2[k] -= int(t[1:])
+                elif t == "e":
+                    gone2[k] = True
+                yield from rec(steps + [(k, t)], lev2, gone2)
+    yield from rec([], [1, 1], [False, False])
+
+
+def random_duo(rng, cfgs):
+    parts = []
+    for c in cfgs:
+        toks, _ = random_ops(rng, rng.randrange(2, 14), c[6] == "1", c[8] == "1", False)
+        if rng.random() < 0.3:
+            toks.append("e")
+        parts.append(toks)
+    steps, idx = [], [0, 0]
+    while idx[0] < len(parts[0]) or idx[1] < len(parts[1]):
+        k = rng.randrange(2)
+        if idx[k] >= len(parts[k]):
+            k = 1 - k
+        # formulas numbered by global position so that the two instances never share one by accident
+        t = parts[k][idx[k]]
+        if t[0] in "aqxy" and t != "a0":
+            head = t[0] if t[0] == "a" else t[:2]
+            t = head + str(2 * (1 + len(steps) % 70))
+        steps.append((k, t))
+        idx[k] += 1
+    return steps
+
+
+def duo_str(steps):
+    return " ".join("%s:%s" % ("AB"[k], t) for k, t in steps)
+
+
+def parse_duo(text):
+    return [("AB".index(x[0]), x[2:]) for x in text.split()]
+
+
+def check_duos(cfgs, who, cases, res, use_lean=True, batch=None):
+    """cases: list of interleaved histories [(instance, token)…] of TWO live solver instances (placements `cfgs`).
+    Each instance is judged on its own history exactly like a single solver (K: model of its projection, S: oracle
+    of its projection); in addition a call on one instance must not change the raw state of the other."""
+    own = batch is None
+    if own:
+        batch = Batch(res)
+    P = py()
+    lines, impl = [], []
+    for n, steps in enumerate(cases):
+        if n % 256 == 0:
+            check_bundle_time()
+        try:
+            with deadline():
+                outs, reads, solvers, exited, cross, fresh = P.duo(cfgs, steps)
+                finals = []
+                for k in (0, 1):
+                    ok = not exited[k] and not (outs[k] and outs[k][-1].startswith("err"))
+                    finals.append(P.final_observation(solvers[k], cfgs[k][6] == "1") if ok else None)
+            hung = False
+        except CaseTimeout:
+            outs, reads, finals, cross, fresh = (["err hang"], ["err hang"]), ([], []), [None, None], None, None
+            hung = True
+        impl.append((outs, reads, finals, cross, fresh))
+        for k in (0, 1):
+            proj = " ".join(t for kk, t in steps if kk == k and t != "e")
+            lines.append(("track %s %s" % (cfgs[k], proj)).rstrip())
+            lines.append(("specops " + proj).rstrip())
+        if hung:
+            try:
+                note_hang()
+            except TooManyHangs:
+                batch.add(lines, lambda model, c=cases[:len(impl)]: _compare_duos(cfgs, who, c, impl, model, res))
+                raise
+    batch.add(lines, lambda model: _compare_duos(cfgs, who, cases, impl, model, res))
+    if own:
+        batch.flush(use_lean)
+
+
+INIT_SNAPSHOT = "-/-/-/0/-"
+
+
+def _compare_duos(cfgs, who, cases, impl, model, res):
+    for n, steps in enumerate(cases):
+        outs, reads, finals, cross, fresh = impl[n]
+        hist = duo_str(steps)
+        res.count("duo_%s" % who)
+        extra0 = {"kind": "duo", "cfgs": list(cfgs), "history": hist, "who": who}
+        if fresh is not None and (fresh[0] != INIT_SNAPSHOT or fresh[1] != INIT_SNAPSHOT):
+            res.k.append(("a new solver instance does not start empty: %s / %s (state leaks between instances)" % (fresh[0], fresh[1]),
+                          dict(extra0, model=INIT_SNAPSHOT, implementation="%s / %s" % (fresh[0], fresh[1]))))
+        if cross is not None:
+            gi, inst, before, after = cross
+            res.s.append(({"oracle": "assert-stack", "part": "solver", "shape": "two-instances",
+                           "call": "any", "pending_from": "other-instance"},
+                          "two live solver instances (placements of %s): step %d `%s:%s` changed the state of instance %s from %s to %s"
+                          % (who, gi, "AB"[steps[gi][0]], steps[gi][1], inst, before, after),
+                          dict(extra0, step=gi, instance=inst)))
+        for k in (0, 1):
+            toks = [t for kk, t in steps if kk == k and t != "e"]
+            m, sp = (model[4 * n + 2 * k], model[4 * n + 2 * k + 1]) if model is not None else (None, None)
+            _judge_track(cfgs[k], who, toks, True, outs[k], reads[k], finals[k], m, sp, res, True,
+                         extra=dict(extra0, instance="AB"[k]), label=", instance %s of `%s`" % ("AB"[k], hist))
 
 
 # --------------------------------------------------------------------------------------------- shrinking
@@ -850,16 +1131,25 @@ def shrink(sig, rep):
     """Delete commands while the implementation still fails with the same signature (≤ 200 attempts; the
     implementation and the Python oracle only, no driver)."""
     kind = rep.get("kind")
-    if kind not in ("script", "strict", "track"):
+    if kind not in ("script", "strict", "track", "duo"):
         return rep, None
-    key = "ops" if kind == "track" else "cmds"
+    key = {"track": "ops", "duo": "history"}.get(kind, "cmds")
     toks = rep[key].split()
     what = None
     attempts = 0
 
     def fails(ts):
         r = Result()
-        if kind == "track":
+        if kind == "duo":
+            steps = parse_duo(" ".join(ts))
+            for k in (0, 1):
+                if not legal_of([t for kk, t in steps if kk == k and t != "e"], True):
+                    return None
+                own = [t for kk, t in steps if kk == k]
+                if "e" in own[:-1]:
+                    return None
+            check_duos(tuple(rep["cfgs"]), rep.get("who", "?"), [steps], r, use_lean=False)
+        elif kind == "track":
             check_tracks(rep["cfg"], rep.get("who", "?"), [(ts, legal_of(ts, True))], r, True, use_lean=False)
         else:
             check_scripts([(ts, legal_of(ts, False))], r, use_lean=False)
@@ -890,6 +1180,8 @@ def weight(task):
         return 3 * 13 ** (task["depth"] - len(task["prefix"]))
     if k == "track_enum":
         return 2 * (12 if task.get("drop") else 18) ** (task["depth"] - len(task["prefix"]))
+    if k == "duo_enum":
+        return 4 * 10 ** task["depth"]
     return 25 * task["n"]
 
 
@@ -899,10 +1191,24 @@ def work(bundle):
     import random
     res = Result()
     batch = Batch(res)
+    deadline.armed = watchdog_install()
+    _BUNDLE_T0[0] = time.time()
+    _HANGS[0] = 0
     for task in bundle:
         kind = task["kind"]
+        if len(res.k) + len(res.s) > 400:
+            # the tree is broken wholesale: the reports collected so far are plenty, do not grind through the rest
+            res.count("subtasks_skipped_after_400_reports")
+            continue
         try:
-            if kind == "script_enum":
+            if kind == "duo_enum":
+                cases = list(enum_duos(task["depth"], task["cfg"][6] == "1"))
+                check_duos((task["cfg"], task["cfg"]), task["who"], cases, res, batch=batch)
+            elif kind == "duo_random":
+                rng = random.Random(task["seed"])
+                cases = [random_duo(rng, task["cfgs"]) for _ in range(task["n"])]
+                check_duos(tuple(task["cfgs"]), task["who"], cases, res, batch=batch)
+            elif kind == "script_enum":
                 cases = [(list(t), l) for (t, l) in enum_sequences(SCRIPT_ALPHA, task["depth"], task["prefix"], False)]
                 check_scripts(cases, res, batch=batch)
             elif kind == "track_enum":
@@ -923,15 +1229,43 @@ def work(bundle):
                 check_tracks(cfg, task["who"], cases, res, task["search"], batch=batch)
             else:
                 raise ValueError(kind)
+        except OutOfTime:
+            res.l.append(("harness bundle ran out of time (%d s)" % BUNDLE_BUDGET_S, "unfinished: %r" % (task,)))
+            break
+        except TooManyHangs:
+            res.count("bundles_stopped_after_4_hanging_cases")
+            break
+        except CaseTimeout:
+            res.l.append(("harness bundle ran out of time (%d s)" % BUNDLE_BUDGET_S, "watchdog outside a case: %r" % (task,)))
         except Exception:
             import traceback
             res.l.append(("harness chunk crashed: %r" % (task,), traceback.format_exc()))
     try:
         batch.flush()
+    except CaseTimeout:
+        pass
     except Exception:
         import traceback
         res.l.append(("harness chunk crashed in comparison", traceback.format_exc()))
     res.states = set(hashlib.blake2b(s.encode(), digest_size=8).digest() for s in res.states)
+    # a broken tree yields a report per case: send back the first ones only (they are all alike), count the rest
+    for name in ("k", "s"):
+        lst = getattr(res, name)
+        if len(lst) > 120:
+            res.count("%s_reports_not_sent" % name, len(lst) - 120)
+            # keep a spread of signatures for S
+            if name == "s":
+                seen, keep = set(), []
+                for item in lst:
+                    key = repr(sorted(item[0].items()))
+                    if key not in seen or len(keep) < 60:
+                        keep.append(item)
+                        seen.add(key)
+                    if len(keep) >= 120:
+                        break
+                lst[:] = keep
+            else:
+                del lst[120:]
     return res
 
 
@@ -974,7 +1308,7 @@ def merge(ctx, res, agg):
     for what, detail in res.l:
         if what not in seen_l:
             seen_l.add(what)
-            if what.startswith("harness chunk crashed"):
+            if what.startswith("harness chunk crashed") or what.startswith("harness bundle ran out of time"):
                 ctx.infra(what + "\n" + detail)
             else:
                 ctx.report_l(what, detail)
@@ -1283,6 +1617,16 @@ def plan(ctx, placements):
         for j in range(2 if quick else 8):
             tasks.append({"kind": "track_random", "cfg": cfg, "who": w, "seed": sd + 100 + j,
                           "n": 600 if quick else 2500, "search": True})
+    # two solver instances alive at the same time (state must not leak from one to the other)
+    cfgs_real = sorted(by_cfg)
+    for cfg, who in sorted(by_cfg.items()):
+        w = "+".join(who)
+        if cfg[6] == "1":
+            tasks.append({"kind": "duo_enum", "cfg": cfg, "who": w, "depth": 4 if quick else 5})
+        for j in range(1 if quick else 4):
+            for other in cfgs_real:
+                tasks.append({"kind": "duo_random", "cfgs": [cfg, other], "who": w + "|" + "+".join(by_cfg[other]),
+                              "seed": sd + 300 + j, "n": 150 if quick else 1500})
     # ... and deliberately different placements (K only: the model must follow the code there too)
     others = ["111110110", "111111011", "000000011", "000000111", "110111111", "111011111", "101111111",
               "011111111", "111101111", "111111110", "111110111"]
@@ -1313,14 +1657,37 @@ def run(ctx):
     agg = {}
     t0 = time.time()
     bundles = pack(tasks, ctx.workers * (2 if ctx.tier == "quick" else 12))
+    global BUNDLE_BUDGET_S
+    # nothing may wait unbounded: every bundle has its own budget, every case its own deadline (SIGALRM), and the
+    # pool as a whole is abandoned at the tier's deadline
+    BUNDLE_BUDGET_S = 100.0 if ctx.tier == "quick" else 800.0
+    overall = max(30.0, min(ctx.time_left() - 10, 130.0 if ctx.tier == "quick" else 1100.0))
+    t_end = time.time() + overall
+    done = 0
     if ctx.workers > 1:
         import multiprocessing
-        with multiprocessing.get_context("fork").Pool(ctx.workers) as pool:
-            for res in pool.imap_unordered(work, bundles, chunksize=1):
+        pool = multiprocessing.get_context("fork").Pool(ctx.workers)
+        try:
+            it = pool.imap_unordered(work, bundles, chunksize=1)
+            for _ in range(len(bundles)):
+                try:
+                    res = it.next(timeout=max(1.0, t_end - time.time()))
+                except multiprocessing.TimeoutError:
+                    ctx.infra("C16 harness: %d of %d bundles did not finish within %d s; abandoned (no case may hang the check)"
+                              % (len(bundles) - done, len(bundles), overall))
+                    break
                 merge(ctx, res, agg)
+                done += 1
+        finally:
+            pool.terminate()
+            pool.join()
     else:
         for b in bundles:
+            if time.time() > t_end:
+                ctx.infra("C16 harness: %d of %d bundles not run within %d s" % (len(bundles) - done, len(bundles), overall))
+                break
             merge(ctx, work(b), agg)
+            done += 1
     ctx.extra["driver_processes"] = len(bundles) + 1
     if ctx.tier == "thorough":
         native_check(ctx)
@@ -1365,6 +1732,8 @@ def replay(ctx, rep):
                 break
             o.step(tt)
         check_tracks(r["cfg"], r.get("who", "replay"), [(toks, legal)], res, True)
+    elif kind == "duo":
+        check_duos(tuple(r["cfgs"]), r.get("who", "replay"), [parse_duo(r["history"])], res)
     elif kind == "placement":
         gen, tbl = load_table(ctx)
         check_table(ctx, gen, tbl)
